@@ -70,20 +70,24 @@ fn c14_free_fn<F: AnyF, const N: usize>(alias: bool) {
 
 fn c14_method<F: AnyF, const M: usize>() {
     let mut s = SuperMinHash::<F, u64, NoHashHasher>::new(M, BuildHasherDefault::<NoHashHasher>::default());
-    let mut b = [F::zero(); M];
+    // the other sketch may be shorter, equal or LONGER (up to m + 2)
+    let mut b = [F::zero(); 8];
+    assert!(M + 2 <= 8);
     for i in 0..M {
         s.hsketch[i] = F::anyf();
+    }
+    for i in 0..(M + 2) {
         b[i] = F::anyf();
     }
     let lb: usize = kani::any();
-    kani::assume(lb <= M);
+    kani::assume(lb <= M + 2);
     let r = strip(s.get_jaccard_index_estimate(&b[..lb]));
     if lb != M {
         assert!(r.is_none());
         std::mem::forget(s);
         return;
     }
-    let c = c14_count(&s.hsketch[..], &b[..]);
+    let c = c14_count(&s.hsketch[..], &b[..M]);
     match r {
         Some(x) => {
             assert!(x == c as f64 / M as f64);
@@ -134,21 +138,21 @@ fn c14_smh_free_f64_n6() {
 #[kani::proof]
 #[kani::stub(std::backtrace::Backtrace::capture, crate::verif_common::no_backtrace)]
 #[kani::stub(<::anyhow::Error as std::ops::Drop>::drop, crate::verif_common::anyhow_drop_noop)]
-#[kani::unwind(6)]
+#[kani::unwind(8)]
 fn c14_smh_method_f64_m4() {
     c14_method::<f64, 4>();
 }
 #[kani::proof]
 #[kani::stub(std::backtrace::Backtrace::capture, crate::verif_common::no_backtrace)]
 #[kani::stub(<::anyhow::Error as std::ops::Drop>::drop, crate::verif_common::anyhow_drop_noop)]
-#[kani::unwind(8)]
+#[kani::unwind(9)]
 fn c14_smh_method_f64_m5() {
     c14_method::<f64, 5>();
 }
 #[kani::proof]
 #[kani::stub(std::backtrace::Backtrace::capture, crate::verif_common::no_backtrace)]
 #[kani::stub(<::anyhow::Error as std::ops::Drop>::drop, crate::verif_common::anyhow_drop_noop)]
-#[kani::unwind(6)]
+#[kani::unwind(7)]
 fn c14_smh_method_f32_m3() {
     c14_method::<f32, 3>();
 }
